@@ -1878,8 +1878,13 @@ class Rule(metaclass=LogicalType):
             return value
 
         contains = 0
+        # whether an item is of that type is tested on the item as it is:
+        # the 'exclude' / 'preserve' policies must not make it "fit"
+        throw_options = utype.Options(
+            invalid_items="throw", invalid_keys="throw", invalid_values="throw",
+        )
         for i, item in enumerate(value):
-            with context.enter(route=i) as item_context:
+            with context.enter(route=i, options=throw_options) as item_context:
                 try:
                     item_context.transformer(item, cls.contains)
                 except Exception:  # noqa: whatever the converter raises, the item is not of that type
